@@ -22,9 +22,9 @@ void cv_set_parent(struct Tree* m, var node, var ptr) { __CPROVER_assert(valid_n
 void cv_set_color(struct Tree* m, var node, bool col) { __CPROVER_assert(valid_node(node), "[C03] colour write to a live node (no use after free)"); cv_red[idx(node)] = col; }
 bool cv_get_color(struct Tree* m, var node) { if (node == NULL) return 0; __CPROVER_assert(valid_node(node), "[C03] colour read of a live node (no use after free)"); return cv_red[idx(node)]; }
 void* calloc(size_t n, size_t s) {
-  __CPROVER_assert(n * s == sizeof(struct TNode), "harness: a Tree entry is links + key object + value object");
+  CV_LIMIT(n * s == sizeof(struct TNode), "harness: a Tree entry is links + key object + value object");
   for (int i = 0; i < NPOOL; i++) if (!cv_used[i]) { cv_used[i] = 1; POOL[i] = (struct TNode){0}; return &POOL[i]; }
-  __CPROVER_assert(0, "harness: node pool large enough"); return NULL;
+  CV_LIMIT(0, "harness: node pool large enough"); return NULL;
 }
 void free(void* p) {
   if (p == NULL) return;
@@ -40,7 +40,7 @@ static var op_init(var self) { return MOP ? (var)&OK_[0].v : Terminal; }
 static var op_next(var self, var curr) { size_t i = ((char*)curr - (char*)&OK_[0].v) / sizeof(OK_[0]); return i + 1 < MOP ? (var)&OK_[i + 1].v : Terminal; }
 static struct Iter cv_op_iter = { op_init, op_next, NULL, NULL, NULL };
 size_t len(var self) { return MOP; }
-var get(var self, var key) { size_t i = ((char*)key - (char*)&OK_[0].v) / sizeof(OK_[0]); __CPROVER_assert(self == src && i < MOP, "harness: get(operand, key) with a key of the operand"); return &OV_[i].v; }
+var get(var self, var key) { size_t i = ((char*)key - (char*)&OK_[0].v) / sizeof(OK_[0]); CV_LIMIT(self == src && i < MOP, "harness: get(operand, key) with a key of the operand"); return &OV_[i].v; }
 var instance(var self, var cls) { return &cv_op_iter; }
 var method_at_offset(var self, var cls, size_t offset, const char* m) { return &cv_op_iter; } bool implements_method_at_offset(var self, var cls, size_t offset) { return true; }
 var key_type(var self) { return ELEM; } var val_type(var self) { return ELEM; }
@@ -107,7 +107,7 @@ static void build(void) {
   in_v = nondet_long();
   kx = header_init(&KX.h, ELEM, AllocStack); EV(kx) = OPKEY; ET(kx) = 0;
   vx = header_init(&VX.h, ELEM, AllocStack); EV(vx) = in_v; ET(vx) = 0;
-  __CPROVER_assert(wf_rb(SH_N), "harness: enumerator validated: the emitted shape is a well-formed red-black tree");
+  CV_LIMIT(wf_rb(SH_N), "harness: enumerator validated: the emitted shape is a well-formed red-black tree");
 }
 static void check_view(int64_t changed_key, int present_after, int64_t new_val) {
   for (int i = 0; i < SH_N; i++) {
